@@ -346,6 +346,10 @@ CellOK ==
 (*  idt(v) logs "idt:<class of v>"; h(v) logs "h:<v>" and returns a base    *)
 (*  class.  main is called with this = probe object "this" and one          *)
 (*  argument, the probe object "arg0".                                      *)
+(*  Object-model classes (section "object model" below): B0 BA BG BS BR BD  *)
+(*  BF base classes, OP PX GX FZ copy sources, PA a prototype with setters, *)
+(*  TH THS THX thenables, Sx Sp W1 the keys "x" "__proto__" 1; shape(o),    *)
+(*  rd(o, k), timing(call) are the observers described there.               *)
 (***************************************************************************)
 
 \* ---- values
@@ -376,18 +380,27 @@ Fmt(v) ==
     [] v.ty = "plain" -> "plain"
     [] v.ty = "disp"  -> "disp:" \o v.s
     [] v.ty = "gobj"  -> "gobj:" \o v.s
+    [] v.ty = "base"  -> "base:" \o v.s
+    [] v.ty = "mark"  -> "mark:" \o v.s
+    [] v.ty = "src"   -> "src:" \o v.s
+    [] v.ty = "then"  -> "then:" \o v.s
     [] OTHER          -> "?"
 IdClass(v) == CASE v.ty \in {"obj", "fn"} -> Fmt(v) [] v.ty = "class" -> "class" [] v.ty = "plain" -> "plain"
                 [] v.ty = "inst" -> (IF v.n = 1 THEN "class" ELSE "inst") [] OTHER -> Fmt(v)
 Nullish(v) == v.ty \in {"undef", "null"}
 Truthy(v)  == ~(Nullish(v) \/ v.ty = "nan" \/ (v.ty \in {"num", "bool"} /\ v.n = 0) \/ (v.ty = "str" /\ v.s = ""))
 IsProbe(v) == v.ty \in {"obj", "fn"}
-IsObject(v) == v.ty \in {"obj", "fn", "lit", "class", "plain", "inst", "gobj", "disp"}
+IsObject(v) == v.ty \in {"obj", "fn", "lit", "class", "plain", "inst", "gobj", "disp", "base", "mark", "src", "then"}
 
 RECURSIVE JoinStr(_, _)
 JoinStr(ss, sep) == IF ss = <<>> THEN "" ELSE IF Len(ss) = 1 THEN ss[1] ELSE ss[1] \o sep \o JoinStr(Tail(ss), sep)
 FmtList(vs) == "[" \o JoinStr([i \in DOMAIN vs |-> Fmt(vs[i])], ",") \o "]"
 
+\* environment classes of the object-model section (base classes, copy sources, thenables): the
+\* class is kept in the value (field n) because the rules depend on it
+ObjClasses == <<"B0", "BA", "BG", "BS", "BR", "BD", "BF", "OP", "PX", "GX", "FZ", "PA", "TH", "THX", "THS">>
+ClassIdx(cl) == CHOOSE i \in DOMAIN ObjClasses : ObjClasses[i] = cl
+ClassOf(v) == IF v.ty = "gobj" THEN "G" ELSE IF v.ty \in {"base", "src", "then"} THEN ObjClasses[v.n] ELSE ""
 EnvVal(cl, i) ==
   LET path == "p" \o ToString(i) IN
   CASE cl = "U" -> Undef [] cl = "N" -> Null [] cl = "Z" -> Num(0) [] cl = "T" -> Num(3) [] cl = "W" -> Num(2)
@@ -395,6 +408,10 @@ EnvVal(cl, i) ==
     [] cl = "G" -> V("gobj", 0, path) [] cl = "Sa" -> Str("a")
     [] cl = "D" -> V("disp", 0, path) [] cl = "DX" -> V("disp", 1, path)
     [] cl = "AD" -> V("disp", 2, path) [] cl = "ADX" -> V("disp", 3, path)
+    [] cl = "Sx" -> Str("x") [] cl = "Sp" -> Str("__proto__") [] cl = "W1" -> Num(1)
+    [] cl \in {"B0", "BA", "BG", "BS", "BR", "BD", "BF"} -> V("base", ClassIdx(cl), path)
+    [] cl \in {"OP", "PX", "GX", "FZ", "PA"} -> V("src", ClassIdx(cl), path)
+    [] cl \in {"TH", "THX", "THS"} -> V("then", ClassIdx(cl), path)
     [] OTHER -> Undef
 KeyVal(path, key) ==
   CASE key = "u" -> Undef [] key = "n" -> Null [] key = "z" -> Num(0) [] key = "t" -> Num(3)
@@ -445,10 +462,10 @@ KV(k, e)    == N("kv", k, 0, <<e>>)
 ObjL(props) == N("obj", "", 0, props)
 
 ChainKinds   == {"mem", "omem", "idx", "oidx", "call", "ocall", "pmem", "pcall", "pacc", "tag"}
-PrimaryKinds == ChainKinds \cup {"p", "this", "arg", "var", "par", "sink", "ctx", "obj", "opmem", "rest", "class", "using", "async", "seq"}
+PrimaryKinds == ChainKinds \cup {"p", "this", "arg", "var", "par", "sink", "ctx", "obj", "opmem", "rest", "class", "using", "async", "seq", "dfn", "cpy", "tim", "thn", "pdestr"}
 
 \* ---- rendering (the source text is part of the model: one definition for text and meaning)
-RECURSIVE Src(_), RestSrc(_), ClassSrc(_), UsingSrc(_), AsyncSrc(_)
+RECURSIVE Src(_), RestSrc(_), ClassSrc(_), UsingSrc(_), AsyncSrc(_), DfnSrc(_), CpySrc(_), TimSrc(_), ThnSrc(_)
 SrcP(x) == IF x.k \in PrimaryKinds THEN Src(x) ELSE "(" \o Src(x) \o ")"
 SrcArgs(xs) == JoinStr([i \in DOMAIN xs |-> Src(xs[i])], ", ")
 CtxPre(name) ==
@@ -543,6 +560,12 @@ Src(x) ==
     [] x.k = "class" -> ClassSrc(x)
     [] x.k = "using" -> UsingSrc(x)
     [] x.k = "async" -> AsyncSrc(x)
+    [] x.k = "dfn"   -> DfnSrc(x)
+    [] x.k = "cpy"   -> CpySrc(x)
+    [] x.k = "tim"   -> TimSrc(x)
+    [] x.k = "thn"   -> ThnSrc(x)
+    [] x.k = "pinc"  -> SrcP(x.a[1]) \o ".#f++"
+    [] x.k = "pdestr"-> "([" \o SrcP(x.a[1]) \o ".#f] = [" \o Src(x.a[2]) \o "])"
     [] x.k = "pacc"  -> SrcP(x.a[1]) \o ".#a"
     [] x.k = "pin"   -> "#f in " \o SrcP(x.a[1])
     [] x.k = "pcall" -> SrcP(x.a[1]) \o ".#m(" \o SrcArgs(Tail(x.a)) \o ")"
@@ -557,7 +580,7 @@ Src(x) ==
 
 \* ---- evaluation
 \* c = [env, this, arg, strict, st]
-RECURSIVE Ev(_, _), EvArgs(_, _, _), EvAsg(_, _), EvObj(_, _), EvCtx(_, _), EvRest(_, _), EvClass(_, _), EvUsing(_, _), EvAsync(_, _)
+RECURSIVE Ev(_, _), EvArgs(_, _, _), EvAsg(_, _), EvObj(_, _), EvCtx(_, _), EvRest(_, _), EvClass(_, _), EvUsing(_, _), EvAsync(_, _), EvDfn(_, _), EvCpy(_, _), EvTim(_, _), EvThn(_, _)
 WithSt(c, st) == [c EXCEPT !.st = st]
 \* evaluate xs left to right; returns [t, vs, ab, st]
 EvArgs(xs, c, acc) ==
@@ -699,6 +722,26 @@ Ev(x, c) ==
     [] x.k = "class" -> EvClass(x, c)
     [] x.k = "using" -> EvUsing(x, c)
     [] x.k = "async" -> EvAsync(x, c)
+    [] x.k = "dfn"   -> EvDfn(x, c)
+    [] x.k = "cpy"   -> EvCpy(x, c)
+    [] x.k = "tim"   -> EvTim(x, c)
+    [] x.k = "thn"   -> EvThn(x, c)
+    [] x.k = "pinc" ->
+         \* e.#f++ : old value converted to a number is the result, old + 1 is stored
+         LET b == Ev(x.a[1], c) IN
+         IF b.ab # "" THEN [b EXCEPT !.sc = FALSE]
+         ELSE IF ~IsInst(b.v) THEN Throw(b.t, "TypeError", b.st)
+         ELSE LET a == ToNum(b.st.f) IN
+              IF a.ty = "nonnum" THEN Unpred(b.t, b.st)
+              ELSE Ok(b.t, a, [b.st EXCEPT !.f = IF a.ty = "nan" THEN NaN ELSE Num(a.n + 1)])
+    [] x.k = "pdestr" ->
+         \* [e.#f] = [v] : the right-hand side is evaluated first, then the target object
+         LET r == Ev(x.a[2], c) IN
+         IF r.ab # "" THEN [r EXCEPT !.sc = FALSE] ELSE
+         LET b == Ev(x.a[1], WithSt(c, r.st)) IN
+         IF b.ab # "" THEN Throw(r.t \o b.t, b.ab, b.st)
+         ELSE IF ~IsInst(b.v) THEN Throw(r.t \o b.t, "TypeError", b.st)
+         ELSE Ok(r.t \o b.t, Lit(FmtList(<<r.v>>)), [b.st EXCEPT !.f = r.v])
 
 
 \* ---- assignment (plain, exponent, logical) to a variable, a property, a computed
@@ -1062,6 +1105,318 @@ EvAsync(x, c) ==
 
 
 -----------------------------------------------------------------------------
+(* ---------------- object model: [[DefineOwnProperty]] vs [[Set]], copies, ---------------- *)
+(* ---------------- error timing of parameter initialisation, thenables    ---------------- *)
+(* What a lowering helper may not confuse: a class field / a copied property is DEFINED      *)
+(* (CreateDataPropertyOrThrow: never looks at the prototype chain, never calls a setter,     *)
+(* fails on a non-extensible target) while `o.k = v` is a [[Set]] (finds k on the chain      *)
+(* first: calls an inherited setter, fails on an inherited read-only property).  And an      *)
+(* async function reports an error of its parameter initialisation through the returned      *)
+(* promise (27.7.5.1 AsyncFunctionStart / 10.2.1.4 step "If declResult is an abrupt          *)
+(* completion, reject"), a generator / async generator throws it at the call.                *)
+(* Observations (node/run_probes_c05.js): shape(o) = "<proto|key=own:EWC:value,...>" lists    *)
+(* every own property with its attributes (lower case = false), rd(o, k) reads through the   *)
+(* chain; accessors of the shapes log bget:/bset:/pget:/pset:; timing(call) says whether the  *)
+(* call threw ("sync:E"), or returned (logs k:ret) something that then rejected ("rej:E") or *)
+(* fulfilled ("ok:v").                                                                       *)
+
+Desc(kind, v, e, w, cf, g, s) == [kind |-> kind, v |-> v, e |-> e, w |-> w, c |-> cf, g |-> g, s |-> s]
+DNone         == Desc("none", Undef, FALSE, FALSE, FALSE, FALSE, FALSE)
+DData(v, e, w, cf) == Desc("data", v, e, w, cf, FALSE, FALSE)
+DAcc(g, s)    == Desc("acc", Undef, FALSE, FALSE, TRUE, g, s)
+FreshData(v)  == DData(v, TRUE, TRUE, TRUE)
+FmtAttr(b, ch) == IF b THEN ch ELSE (CASE ch = "E" -> "e" [] ch = "W" -> "w" [] ch = "C" -> "c")
+FmtDesc(d) ==
+  CASE d.kind = "none" -> "absent"
+    [] d.kind = "data" -> "own:" \o FmtAttr(d.e, "E") \o FmtAttr(d.w, "W") \o FmtAttr(d.c, "C") \o ":" \o Fmt(d.v)
+    [] OTHER           -> "own:acc:" \o FmtAttr(d.e, "E") \o FmtAttr(d.c, "C")
+\* the outcome of a write: the own descriptor afterwards, the events, the abrupt completion
+WR(own, evs, ab) == [own |-> own, evs |-> evs, ab |-> ab]
+\* CreateDataPropertyOrThrow / DefineField (ECMA-262 7.3.7, 7.3.34; 10.1.6.3
+\* ValidateAndApplyPropertyDescriptor): own = the current own descriptor, ext = [[Extensible]]
+DefineOwn(own, ext, v) ==
+  IF own.kind = "none" THEN (IF ext THEN WR(FreshData(v), <<>>, "") ELSE WR(own, <<>>, "TypeError"))
+  ELSE IF own.c THEN WR(FreshData(v), <<>>, "")
+  ELSE WR(own, <<>>, "TypeError")
+\* OrdinarySet with Receiver = the object (10.1.9.2): inh = the descriptor found on the prototype
+\* chain, wh = the name accessors of the chain log, strict = the assignment is strict-mode code
+SetProp(own, inh, ext, v, wh, strict) ==
+  LET d    == IF own.kind # "none" THEN own ELSE inh
+      fail == WR(own, <<>>, IF strict THEN "TypeError" ELSE "")
+  IN CASE d.kind = "acc"  -> (IF d.s THEN WR(own, <<"bset:" \o wh \o "=" \o Fmt(v)>>, "") ELSE fail)
+       [] d.kind = "data" /\ ~d.w -> fail
+       [] own.kind = "data" -> WR([own EXCEPT !.v = v], <<>>, "")
+       [] OTHER -> (IF ext THEN WR(FreshData(v), <<>>, "") ELSE fail)
+GetProp(own, inh, wh) ==
+  LET d == IF own.kind # "none" THEN own ELSE inh IN
+  CASE d.kind = "acc"  -> (IF d.g THEN [v |-> Num(9), evs |-> <<"bget:" \o wh>>] ELSE [v |-> Undef, evs |-> <<>>])
+    [] d.kind = "data" -> [v |-> d.v, evs |-> <<>>]
+    [] OTHER           -> [v |-> Undef, evs |-> <<>>]
+InChain(own, inh) == own.kind # "none" \/ inh.kind # "none"       \* `key in obj`
+
+\* what a base class of class cl puts on its prototype (and, as statics, on itself) under the
+\* keys "x" and "1"; BF: nothing, but the constructor returns a frozen object
+BaseInh(cl) ==
+  CASE cl = "BA" -> DAcc(TRUE, TRUE) [] cl = "BG" -> DAcc(TRUE, FALSE) [] cl = "BS" -> DAcc(FALSE, TRUE)
+    [] cl = "BR" -> DData(Num(9), TRUE, FALSE, TRUE) [] cl = "BD" -> DData(Num(9), TRUE, TRUE, TRUE) [] OTHER -> DNone
+BaseExt(cl) == cl # "BF"
+ChainShapes == {DNone, DAcc(TRUE, TRUE), DAcc(TRUE, FALSE), DAcc(FALSE, TRUE), DData(Num(9), TRUE, FALSE, TRUE), DData(Num(9), TRUE, TRUE, TRUE)}
+OwnShapes   == ChainShapes \cup {DData(Num(9), FALSE, FALSE, FALSE), DData(Num(9), TRUE, TRUE, FALSE)}
+\* TLC checks (design config): a definition never depends on the chain and never runs an
+\* accessor; an assignment is the same as a definition exactly when the key is nowhere on the
+\* chain and the target is extensible (the only case in which a helper may assign instead)
+ObjModelOK ==
+  \A own \in OwnShapes : \A inh \in ChainShapes : \A ext \in BOOLEAN : \A strict \in BOOLEAN :
+    LET d == DefineOwn(own, ext, Num(3)) s == SetProp(own, inh, ext, Num(3), "w", strict) IN
+    /\ d = DefineOwn(own, ext, Num(3)) /\ d.evs = <<>>
+    /\ d.ab = "" => d.own = FreshData(Num(3))
+    /\ (~InChain(own, inh) /\ ext) => s = d
+    /\ (own.kind = "none" /\ inh.kind = "acc") => (s.own = DNone /\ (ext => s # d))
+    /\ (own.kind = "none" /\ inh.kind = "data" /\ ~inh.w /\ ext) => (s.own = DNone /\ s.ab = (IF strict THEN "TypeError" ELSE "") /\ d.ab = "")
+    /\ (own.kind = "none" /\ ~ext) => (d.ab = "TypeError" /\ s.own = DNone /\ (s.ab = "" => (~strict \/ (inh.kind = "acc" /\ inh.s))))
+ObjModelHolds == (u = u) /\ ObjModelOK      \* (an invariant must mention a variable)
+
+\* ---- class fields and assignments over a base class (node "dfn")
+\* slots: 1 base class, 2 value, 3 computed key (variants d_cfield / d_csfield only)
+DfnStatic == {"d_sfield", "d_sprotofield", "d_csfield", "d_sblockset"}
+DfnSet    == {"d_ctorset", "d_sblockset", "d_superset"}
+DfnKeyText(vr) == CASE vr \in {"d_numfield"} -> "1" [] vr \in {"d_protofield", "d_sprotofield"} -> "__proto__" [] OTHER -> "x"
+DfnSrc(x) ==
+  LET B == SrcP(x.a[1])
+      Vv == Src(x.a[2])
+      key == DfnKeyText(x.s)
+      st == IF x.s \in DfnStatic THEN "static " ELSE ""
+      member ==
+        CASE x.s \in {"d_cfield", "d_csfield"} -> st \o "[" \o Src(x.a[3]) \o "] = " \o Vv \o ";"
+          [] x.s = "d_ctorset"   -> "constructor() { super(); this.x = " \o Vv \o "; }"
+          [] x.s = "d_sblockset" -> "static { this.x = " \o Vv \o "; }"
+          [] x.s = "d_superget"  -> "async m() { await 0; return super.x; }"
+          [] x.s = "d_superset"  -> "async m() { await 0; super.x = " \o Vv \o "; return 0; }"
+          [] OTHER -> st \o key \o " = " \o Vv \o ";"
+      kexp == IF x.s \in {"d_cfield", "d_csfield"} THEN "kk" ELSE "\"" \o key \o "\""
+      head == "class C extends " \o B \o " { " \o member \o " }"
+  IN CASE x.s \in {"d_cfield", "d_csfield"} ->
+            "(() => { let kk; const K = (v) => (kk = v); " \o
+            "class C extends " \o B \o " { " \o st \o "[K(" \o Src(x.a[3]) \o ")] = " \o Vv \o "; } " \o
+            (IF x.s = "d_csfield" THEN "return [shape(C), rd(C, kk)]; })()" ELSE "const o = new C(); return [shape(o), rd(o, kk)]; })()")
+       [] x.s = "d_superget" -> "(await (async () => { " \o head \o " const o = new C(); const v = await o.m(); return [shape(o), fmtv(v)]; })())"
+       [] x.s = "d_superset" -> "(await (async () => { " \o head \o " const o = new C(); await o.m(); return [shape(o), rd(o, \"x\")]; })())"
+       [] x.s \in DfnStatic  -> "(() => { " \o head \o " return [shape(C), rd(C, " \o kexp \o ")]; })()"
+       [] OTHER              -> "(() => { " \o head \o " const o = new C(); return [shape(o), rd(o, " \o kexp \o ")]; })()"
+PropKeyOf(v) == CASE v.ty = "str" -> v.s [] v.ty = "num" -> ToString(v.n) [] OTHER -> "?"
+EvDfn(x, c) ==
+  LET b == Ev(x.a[1], c) IN
+  IF b.ab # "" THEN Throw(b.t, b.ab, b.st)
+  ELSE IF b.v.ty # "base" THEN Unpred(b.t, b.st) ELSE
+  LET cl     == ClassOf(b.v)
+      static == x.s \in DfnStatic
+      \* a computed key is evaluated when the class is defined
+      kr     == IF x.s \in {"d_cfield", "d_csfield"} THEN Ev(x.a[3], WithSt(c, b.st)) ELSE Ok(<<>>, Str(DfnKeyText(x.s)), b.st)
+  IN IF kr.ab # "" THEN Throw(b.t \o kr.t, kr.ab, kr.st)
+  ELSE IF PropKeyOf(kr.v) = "?" THEN Unpred(b.t \o kr.t, kr.st) ELSE
+  LET key  == PropKeyOf(kr.v)
+      wh   == b.v.s \o (IF static THEN ".static." ELSE ".") \o key
+      \* instance members run after the base constructor; field initialisers / the statements
+      \* of the templates are strict code (class bodies)
+      vr   == IF x.s = "d_superget" THEN Ok(<<>>, Undef, kr.st) ELSE Ev(x.a[2], [c EXCEPT !.st = kr.st, !.strict = TRUE, !.this = IF static THEN ClassV ELSE InstV])
+      t1   == b.t \o kr.t \o (IF static THEN <<>> ELSE <<"B">>) \o vr.t
+  IN IF vr.ab # "" THEN Throw(t1, vr.ab, vr.st) ELSE
+  LET inh  == IF key = "__proto__" THEN DAcc(TRUE, TRUE) ELSE BaseInh(cl)
+      ext  == static \/ BaseExt(cl)
+      w    == CASE x.s = "d_superget" -> WR(DNone, <<>>, "")
+                [] x.s \in DfnSet     -> SetProp(DNone, inh, ext, vr.v, wh, TRUE)
+                [] OTHER              -> DefineOwn(DNone, ext, vr.v)
+      t2   == t1 \o w.evs
+  IN IF w.ab # "" THEN Throw(t2, w.ab, vr.st) ELSE
+  LET g    == GetProp(w.own, inh, wh)
+      sh   == "<" \o (IF static THEN "base:" \o b.v.s ELSE "other") \o "|" \o
+              (IF w.own.kind = "none" THEN "" ELSE key \o "=" \o FmtDesc(w.own)) \o ">"
+  IN Ok(t2 \o g.evs, Lit("[str:" \o sh \o ",str:" \o Fmt(g.v) \o "]"), vr.st)
+
+\* ---- copies: object spread and object rest over adversarial sources (node "cpy")
+\* own properties of a source in creation order: key, enumerable, value, acc = reading logs
+\* "get:", thr = the getter throws GErr.  PX is a Proxy: it also logs ownKeys / gopd.
+SK(key, e, v, acc, thr) == [key |-> key, e |-> e, v |-> v, acc |-> acc, thr |-> thr]
+Mark == V("mark", 0, "m")
+SrcProps(cl) ==
+  CASE cl = "G"  -> <<SK("b", TRUE, Undef, TRUE, FALSE), SK("1", TRUE, Num(1), TRUE, FALSE), SK("a", TRUE, Num(7), TRUE, FALSE),
+                      SK("h", FALSE, Num(6), TRUE, FALSE), SK("@s", TRUE, Num(8), TRUE, FALSE), SK("@hs", FALSE, Num(5), TRUE, FALSE)>>
+    [] cl = "OP" -> <<SK("a", TRUE, Num(1), FALSE, FALSE), SK("__proto__", TRUE, Mark, FALSE, FALSE)>>
+    [] cl = "PX" -> <<SK("b", TRUE, Num(2), TRUE, FALSE), SK("a", TRUE, Num(1), TRUE, FALSE), SK("h", FALSE, Num(6), TRUE, FALSE),
+                      SK("@s", TRUE, Num(8), TRUE, FALSE)>>
+    [] cl = "GX" -> <<SK("a", TRUE, Undef, TRUE, TRUE), SK("c", TRUE, Num(2), TRUE, FALSE)>>
+    [] cl = "FZ" -> <<SK("a", TRUE, Num(1), FALSE, FALSE)>>
+    [] OTHER     -> <<>>
+IsIntK(r) == r.key = "1"
+IsSymK(r) == r.key \in {"@s", "@hs"}
+IsStrK(r) == ~IsIntK(r) /\ ~IsSymK(r)
+OwnKeyOrder(props) == SelectSeq(props, IsIntK) \o SelectSeq(props, IsStrK) \o SelectSeq(props, IsSymK)   \* 10.1.11.1
+IsSymKey2(key) == key \in {"@s", "@hs"}
+KeyOrder2(ord) == SelectSeq(ord, IsIntKey) \o SelectSeq(ord, LAMBDA k : ~IsIntKey(k) /\ ~IsSymKey2(k)) \o SelectSeq(ord, IsSymKey2)
+\* reading property key of a value (destructuring `{ a }`): [evs, err, v]
+GetOf(v, key) ==
+  LET cl == ClassOf(v) IN
+  IF Nullish(v) THEN [evs |-> <<>>, err |-> "TypeError", v |-> Undef]
+  ELSE IF cl \in {"G", "OP", "PX", "GX", "FZ"} THEN
+       LET ps == SelectSeq(SrcProps(cl), LAMBDA r : r.key = key) IN
+       IF ps = <<>> THEN [evs |-> IF cl = "PX" THEN <<"get:" \o v.s \o "." \o key>> ELSE <<>>, err |-> "", v |-> Undef]
+       ELSE [evs |-> IF ps[1].acc THEN <<"get:" \o v.s \o "." \o key>> ELSE <<>>,
+             err |-> IF ps[1].thr THEN "GErr(" \o v.s \o ")" ELSE "", v |-> ps[1].v]
+  ELSE IF v.ty \in {"num", "bool", "nan", "str"} THEN [evs |-> <<>>, err |-> "", v |-> Undef]
+  ELSE [evs |-> <<>>, err |-> "UNPRED", v |-> Undef]
+\* CopyDataProperties (7.3.26): acc = [t, ab, ord, val]
+PutD(a, key, w) == [a EXCEPT !.ord = IF key \in SeqSet(@) THEN @ ELSE Append(@, key), !.val = (key :> w) @@ @]
+RECURSIVE CopyKeys(_, _, _, _, _)
+CopyKeys(keys, cl, path, excl, acc) ==
+  IF keys = <<>> \/ acc.ab # "" THEN acc ELSE
+  LET r == Head(keys) IN
+  IF r.key \in excl THEN CopyKeys(Tail(keys), cl, path, excl, acc) ELSE
+  LET gopd == IF cl = "PX" THEN <<"gopd:" \o path \o "." \o r.key>> ELSE <<>>
+      get  == IF r.acc THEN <<"get:" \o path \o "." \o r.key>> ELSE <<>> IN
+  IF ~r.e THEN CopyKeys(Tail(keys), cl, path, excl, [acc EXCEPT !.t = @ \o gopd])
+  ELSE IF r.thr THEN [acc EXCEPT !.t = @ \o gopd \o get, !.ab = "GErr(" \o path \o ")"]
+  ELSE CopyKeys(Tail(keys), cl, path, excl, PutD([acc EXCEPT !.t = @ \o gopd \o get], r.key, FmtDesc(FreshData(r.v))))
+CopyFrom(v, excl, acc) ==
+  LET cl == ClassOf(v) IN
+  IF Nullish(v) \/ v.ty \in {"num", "bool", "nan"} THEN acc
+  ELSE IF cl \notin {"G", "OP", "PX", "GX", "FZ"} THEN [acc EXCEPT !.ab = "UNPRED"]
+  ELSE CopyKeys(OwnKeyOrder(SrcProps(cl)), cl, v.s, excl, [acc EXCEPT !.t = @ \o (IF cl = "PX" THEN <<"ownKeys:" \o v.s>> ELSE <<>>)])
+ShapeOf(proto, a) == "<" \o proto \o "|" \o JoinStr([i \in DOMAIN KeyOrder2(a.ord) |-> KeyOrder2(a.ord)[i] \o "=" \o a.val[KeyOrder2(a.ord)[i]]], ",") \o ">"
+CpySrc(x) ==
+  CASE x.s = "s_spread"       -> "(() => { const o = { x: 1, ..." \o SrcP(x.a[1]) \o " }; return shape(o); })()"
+    [] x.s = "s_spread_proto" -> "(() => { const o = { __proto__: " \o SrcP(x.a[1]) \o ", ..." \o SrcP(x.a[2]) \o ", b: 2 }; return shape(o); })()"
+    [] x.s = "s_rest"         -> "(() => { const { a, ...r } = " \o Src(x.a[1]) \o "; return [a, shape(r)]; })()"
+    [] x.s = "s_rest_asg"     -> "(() => { let a, r; ({ a, ...r } = " \o Src(x.a[1]) \o "); return [a, shape(r)]; })()"
+EvCpy(x, c) ==
+  LET A0 == [t |-> <<>>, ab |-> "", ord |-> <<>>, val |-> <<>>] IN
+  CASE x.s = "s_spread" ->
+         LET r == Ev(x.a[1], c) IN
+         IF r.ab # "" THEN Throw(r.t, r.ab, r.st) ELSE
+         LET a == CopyFrom(r.v, {}, PutD([A0 EXCEPT !.t = r.t], "x", FmtDesc(FreshData(Num(1))))) IN
+         IF a.ab # "" THEN Throw(a.t, a.ab, r.st) ELSE Ok(a.t, Str(ShapeOf("Object", a)), r.st)
+    [] x.s = "s_spread_proto" ->
+         LET pr == Ev(x.a[1], c) IN
+         IF pr.ab # "" THEN Throw(pr.t, pr.ab, pr.st) ELSE
+         LET r == Ev(x.a[2], WithSt(c, pr.st)) IN
+         IF r.ab # "" THEN Throw(pr.t \o r.t, r.ab, r.st)
+         ELSE IF ~(pr.v.ty = "null" \/ ClassOf(pr.v) = "PA") THEN Unpred(pr.t \o r.t, r.st) ELSE
+         LET a  == CopyFrom(r.v, {}, [A0 EXCEPT !.t = pr.t \o r.t])
+             a2 == PutD(a, "b", FmtDesc(FreshData(Num(2)))) IN
+         IF a.ab # "" THEN Throw(a.t, a.ab, r.st)
+         ELSE Ok(a.t, Str(ShapeOf(IF pr.v.ty = "null" THEN "null" ELSE "pa:" \o pr.v.s, a2)), r.st)
+    [] x.s \in {"s_rest", "s_rest_asg"} ->
+         LET r == Ev(x.a[1], c) IN
+         IF r.ab # "" THEN Throw(r.t, r.ab, r.st) ELSE
+         LET g == GetOf(r.v, "a") IN
+         IF g.err # "" THEN Throw(r.t \o g.evs, g.err, r.st) ELSE
+         LET a == CopyFrom(r.v, {"a"}, [A0 EXCEPT !.t = r.t \o g.evs]) IN
+         IF a.ab # "" THEN Throw(a.t, a.ab, r.st)
+         ELSE Ok(a.t, Lit("[" \o Fmt(g.v) \o ",str:" \o ShapeOf("Object", a) \o "]"), r.st)
+
+\* ---- error timing of parameter initialisation (node "tim": x.n = form, x.s = cause)
+TimForms == <<"fn", "arrow", "meth", "cmeth", "smeth", "gen", "genmeth">>
+TimTdz   == {"tdz_let", "tdz_const", "tdz_class", "tdzargs"}
+TypeOf(v) == CASE v.ty = "undef" -> "undefined" [] v.ty \in {"num", "nan"} -> "number" [] v.ty = "str" -> "string"
+               [] v.ty = "bool" -> "boolean" [] v.ty \in {"fn", "class", "base"} -> "function" [] OTHER -> "object"
+TimSrc(x) ==
+  LET form   == TimForms[x.n]
+      isGen  == form \in {"gen", "genmeth"}
+      A(i)   == Src(x.a[i])
+      params == CASE x.s \in TimTdz -> "a = L" [] x.s \in {"dflt", "args"} -> "a = " \o A(1) [] x.s = "destr" -> "{ a }"
+                  [] x.s = "ddflt" -> "{ b: a = " \o A(2) \o " }" [] x.s = "body" -> "a"
+      args   == CASE x.s \in {"destr", "ddflt"} -> A(1) [] x.s = "body" -> "2" [] OTHER -> ""
+      k2     == IF x.s \in {"args", "tdzargs"} THEN "k(arguments.length)" ELSE "k(2)"
+      body   == "k(1); " \o (IF x.s = "body" THEN A(1) \o "; " ELSE "") \o "await 0; " \o k2 \o "; " \o
+                (IF isGen THEN "yield " ELSE "return ") \o "typeof a;"
+      sig    == "(" \o params \o ") { " \o body \o " }"
+      decl   == CASE form = "fn"      -> "async function f" \o sig
+                  [] form = "gen"     -> "async function* f" \o sig
+                  [] form = "arrow"   -> "const f = async (" \o params \o ") => { " \o body \o " };"
+                  [] form = "meth"    -> "const o = { async f" \o sig \o " };"
+                  [] form = "genmeth" -> "const o = { async *f" \o sig \o " };"
+                  [] form = "cmeth"   -> "class K { async f" \o sig \o " } const o = new K();"
+                  [] form = "smeth"   -> "class o { static async f" \o sig \o " }"
+      callee == IF form \in {"fn", "gen", "arrow"} THEN "f" ELSE "o.f"
+      call   == "await timing(() => " \o callee \o "(" \o args \o ")" \o (IF isGen THEN ", true" ELSE "") \o ")"
+      ldecl  == CASE x.s = "tdz_const" -> "const L = 5;" [] x.s = "tdz_class" -> "class L {}" [] OTHER -> "let L = 5;"
+  IN IF x.s \in TimTdz
+     THEN "(await (async () => { " \o decl \o " const e = " \o A(1) \o "; let r; if (e) r = " \o call \o "; " \o ldecl \o
+          " if (!e) r = " \o call \o "; return r; })())"
+     ELSE "(await (async () => { " \o decl \o " return " \o call \o "; })())"
+EvTim(x, c) ==
+  LET form  == TimForms[x.n]
+      isGen == form \in {"gen", "genmeth"}
+      first == IF x.s = "body" THEN Ok(<<>>, Undef, c.st) ELSE Ev(x.a[1], c)
+  IN
+  \* the early flag is evaluated by the surrounding code; an argument inside the observed call
+  IF first.ab # "" /\ x.s \in TimTdz THEN Throw(first.t, first.ab, first.st)
+  ELSE IF first.ab # "" /\ x.s \in {"destr", "ddflt"} THEN Ok(first.t, Str("sync:" \o first.ab), first.st)
+  ELSE
+  LET \* parameter initialisation: [evs, err, a]
+      init ==
+        CASE x.s \in TimTdz -> [evs |-> <<>>, err |-> IF Truthy(first.v) THEN "ReferenceError" ELSE "",
+                                a |-> IF x.s = "tdz_class" THEN ClassV ELSE Num(5)]
+          [] x.s \in {"dflt", "args"} -> [evs |-> <<>>, err |-> first.ab, a |-> first.v]
+          [] x.s = "destr" -> LET g == GetOf(first.v, "a") IN [evs |-> g.evs, err |-> g.err, a |-> g.v]
+          [] x.s = "ddflt" ->
+               LET g == GetOf(first.v, "b") IN
+               IF g.err # "" THEN [evs |-> g.evs, err |-> g.err, a |-> Undef]
+               ELSE IF g.v.ty # "undef" THEN [evs |-> g.evs, err |-> "", a |-> g.v]
+               ELSE LET d == Ev(x.a[2], WithSt(c, first.st)) IN [evs |-> g.evs \o d.t, err |-> d.ab, a |-> d.v]
+          [] OTHER -> [evs |-> <<>>, err |-> "", a |-> Num(2)]
+      pre   == IF x.s \in {"dflt", "args"} THEN first.t ELSE IF x.s = "body" THEN <<>> ELSE first.t
+      bodyR == IF x.s = "body" THEN Ev(x.a[1], c) ELSE Ok(<<>>, Undef, c.st)
+      \* `arguments` of an arrow function are those of the enclosing function (one argument in
+      \* every position of the generator); the other forms are called without arguments
+      argc  == IF form = "arrow" THEN 1 ELSE 0
+      k2    == IF x.s \in {"args", "tdzargs"} THEN "k:num:" \o ToString(argc) ELSE "k:num:2"
+      okv   == "ok:str:" \o TypeOf(init.a)
+      stE   == first.st
+  IN
+  IF init.err = "UNPRED" THEN Unpred(pre \o init.evs, stE)
+  ELSE IF ~isGen THEN
+       IF init.err # "" THEN Ok(pre \o init.evs \o <<"k:ret">>, Str("rej:" \o init.err), stE)
+       ELSE IF bodyR.ab # "" THEN Ok(pre \o init.evs \o <<"k:num:1">> \o bodyR.t \o <<"k:ret">>, Str("rej:" \o bodyR.ab), stE)
+       ELSE Ok(pre \o init.evs \o <<"k:num:1">> \o bodyR.t \o <<"k:ret", k2>>, Str(okv), stE)
+  ELSE
+       IF init.err # "" THEN Ok(pre \o init.evs, Str("sync:" \o init.err), stE)
+       ELSE IF bodyR.ab # "" THEN Ok(pre \o init.evs \o <<"k:ret", "k:num:1">> \o bodyR.t, Str("rej:" \o bodyR.ab), stE)
+       ELSE Ok(pre \o init.evs \o <<"k:ret", "k:num:1">> \o bodyR.t \o <<k2>>, Str(okv), stE)
+
+\* ---- awaiting / returning / iterating custom thenables (node "thn")
+\* TH fulfils with 4, THS calls resolve twice (4, then 6: ignored), THX rejects with TErr
+ThnSrc(x) ==
+  LET A(i) == Src(x.a[i]) IN
+  CASE x.s = "a_then" ->
+         "(await (async () => { const f = async () => { k(1); const v = await " \o SrcP(x.a[1]) \o "; k(2); return v; }; const pr = f(); k(3); return await timing(() => pr); })())"
+    [] x.s = "a_retthen" ->
+         "(await (async () => { const f = async () => { k(1); return " \o A(1) \o "; }; const pr = f(); k(3); return await timing(() => pr); })())"
+    [] x.s = "a_forawait_then" ->
+         "(await (async () => { const out = []; for await (const x of [" \o A(1) \o ", " \o A(2) \o "]) out.push(x); return out; })())"
+ThenEvs(v) == IF v.ty = "then" THEN <<"then:" \o v.s \o " this=self">> ELSE <<>>
+ThenGet(v) == IF v.ty = "then" THEN <<"get:" \o v.s \o ".then">> ELSE <<>>
+ThenErr(v) == IF v.ty = "then" /\ ClassOf(v) = "THX" THEN "TErr(" \o v.s \o ")" ELSE ""
+ThenVal(v) == IF v.ty = "then" THEN Num(4) ELSE v
+EvThn(x, c) ==
+  CASE x.s \in {"a_then", "a_retthen"} ->
+         LET r == Ev(x.a[1], c) IN
+         IF r.ab # "" THEN Ok(<<"k:num:1">> \o r.t \o <<"k:num:3", "k:ret">>, Str("rej:" \o r.ab), r.st) ELSE
+         LET t == <<"k:num:1">> \o r.t \o ThenGet(r.v) \o <<"k:num:3", "k:ret">> \o ThenEvs(r.v) IN
+         IF ThenErr(r.v) # "" THEN Ok(t, Str("rej:" \o ThenErr(r.v)), r.st)
+         ELSE Ok(t \o (IF x.s = "a_then" THEN <<"k:num:2">> ELSE <<>>), Str("ok:" \o Fmt(ThenVal(r.v))), r.st)
+    [] x.s = "a_forawait_then" ->
+         LET r1 == Ev(x.a[1], c) IN
+         IF r1.ab # "" THEN Throw(r1.t, r1.ab, r1.st) ELSE
+         LET r2 == Ev(x.a[2], WithSt(c, r1.st)) IN
+         IF r2.ab # "" THEN Throw(r1.t \o r2.t, r2.ab, r2.st) ELSE
+         LET t1 == r1.t \o r2.t \o ThenGet(r1.v) \o ThenEvs(r1.v) IN
+         IF ThenErr(r1.v) # "" THEN Throw(t1, ThenErr(r1.v), r2.st) ELSE
+         LET t2 == t1 \o ThenGet(r2.v) \o ThenEvs(r2.v) IN
+         IF ThenErr(r2.v) # "" THEN Throw(t2, ThenErr(r2.v), r2.st)
+         ELSE Ok(t2, Lit(FmtList(<<ThenVal(r1.v), ThenVal(r2.v)>>)), r2.st)
+
+
+-----------------------------------------------------------------------------
 (* ---------------- programs: constructs x positions (x nesting) ---------------- *)
 
 RoleSet(role) ==
@@ -1082,6 +1437,14 @@ RoleSet(role) ==
     [] role = "b"  -> {"Z", "T"}           \* loop exit condition
     [] role = "c"  -> {"T"}                \* operand whose value does not matter (order only)
     [] role = "kc" -> {"S"}
+    [] role = "bs" -> {"B0", "BA", "BG", "BS", "BR", "BD", "BF"}   \* base class: what the chain has under the key
+    [] role = "vd" -> {"T", "O", "N"}      \* value written by a definition
+    [] role = "kd" -> {"Sx", "Sp", "W1"}   \* computed key of a definition: "x", "__proto__", 1
+    [] role = "sg" -> {"G", "OP", "PX", "GX", "FZ", "U"}    \* source of a copy (spread)
+    [] role = "sr" -> {"G", "OP", "PX", "GX", "FZ", "N"}    \* source of a copy (rest)
+    [] role = "tp" -> {"PA", "N"}          \* prototype given to an object literal
+    [] role = "ds" -> {"U", "N", "G", "GX", "T"}   \* argument destructured by a parameter
+    [] role = "th" -> {"TH", "THX", "THS", "T"}    \* awaited value: thenables
 
 \* construct descriptors: fam = family, op/key = parameters, roles = roles of the operand slots,
 \* req = "" | "priv" (needs the private names of the priv contexts) | "var" (needs the local v)
@@ -1128,7 +1491,9 @@ ExprConstructs ==
     CD("priv_call", "priv_call", "", "", <<"v">>, "priv"),
     CD("priv_acc", "priv_acc", "", "", <<>>, "priv"),
     CD("priv_set", "asg_priv", "=", "", <<"v">>, "priv"),
-    CD("priv_accset", "asg_pacc", "=", "", <<"v">>, "priv")>>
+    CD("priv_accset", "asg_pacc", "=", "", <<"v">>, "priv"),
+    CD("priv_inc", "priv_inc", "", "", <<>>, "priv"),
+    CD("priv_destr", "priv_destr", "", "", <<"v">>, "priv")>>
   \o [i \in 1..3 |-> CD("la_" \o OpTag(LogOps[i]) \o "_mem_u", "asg_mem", LogOps[i], "u", <<"ro", "v">>, "")]
   \o [i \in 1..3 |-> CD("la_" \o OpTag(LogOps[i]) \o "_mem_t", "asg_mem", LogOps[i], "t", <<"ro", "v">>, "")]
   \o [i \in 1..3 |-> CD("la_" \o OpTag(LogOps[i]) \o "_mem_z", "asg_mem", LogOps[i], "z", <<"ro", "v">>, "")]
@@ -1183,6 +1548,34 @@ StmtConstructs ==
     CD("a_yieldstar", "async", "a_yieldstar", "", <<"v">>, ""),
     CD("a_genpromise", "async", "a_genpromise", "", <<"v">>, "")>>
 
+\* the object-model families: definitions over base classes, copies, error timing (every cause x
+\* every form of async function), thenables
+TimCauses == <<"tdz_let", "tdz_const", "tdz_class", "tdzargs", "dflt", "args", "destr", "ddflt", "body">>
+TimRoles(cause) == CASE cause \in TimTdz -> <<"b">> [] cause = "destr" -> <<"ds">> [] cause = "ddflt" -> <<"ds", "v">> [] OTHER -> <<"v">>
+FormIdx(f) == CHOOSE i \in DOMAIN TimForms : TimForms[i] = f
+ObjConstructs ==
+  <<CD("d_field", "dfn", "d_field", "", <<"bs", "vd">>, ""),
+    CD("d_sfield", "dfn", "d_sfield", "", <<"bs", "vd">>, ""),
+    CD("d_numfield", "dfn", "d_numfield", "", <<"bs", "vd">>, ""),
+    CD("d_protofield", "dfn", "d_protofield", "", <<"bs", "vd">>, ""),
+    CD("d_sprotofield", "dfn", "d_sprotofield", "", <<"bs", "vd">>, ""),
+    CD("d_cfield", "dfn", "d_cfield", "", <<"bs", "vd", "kd">>, ""),
+    CD("d_csfield", "dfn", "d_csfield", "", <<"bs", "vd", "kd">>, ""),
+    CD("d_ctorset", "dfn", "d_ctorset", "", <<"bs", "vd">>, ""),
+    CD("d_sblockset", "dfn", "d_sblockset", "", <<"bs", "vd">>, ""),
+    CD("d_superget", "dfn", "d_superget", "", <<"bs">>, ""),
+    CD("d_superset", "dfn", "d_superset", "", <<"bs", "vd">>, ""),
+    CD("s_spread", "cpy", "s_spread", "", <<"sg">>, ""),
+    CD("s_spread_proto", "cpy", "s_spread_proto", "", <<"tp", "sg">>, ""),
+    CD("s_rest", "cpy", "s_rest", "", <<"sr">>, ""),
+    CD("s_rest_asg", "cpy", "s_rest_asg", "", <<"sr">>, ""),
+    CD("a_then", "thn", "a_then", "", <<"th">>, ""),
+    CD("a_retthen", "thn", "a_retthen", "", <<"th">>, ""),
+    CD("a_forawait_then", "thn", "a_forawait_then", "", <<"th", "th">>, "")>>
+  \o [n \in 1..(Len(TimCauses) * Len(TimForms)) |->
+       LET ci == ((n - 1) % Len(TimCauses)) + 1 fi == ((n - 1) \div Len(TimCauses)) + 1 IN
+       CD("t_" \o TimCauses[ci] \o "_" \o TimForms[fi], "tim", TimCauses[ci], TimForms[fi], TimRoles(TimCauses[ci]), "")]
+
 \* an operand that is an optional chain is parenthesised where extending the chain would be a
 \* syntax error (assignment target, tagged template)
 ParIfChain(e) == IF e.k \in ChainKinds THEN Par(e) ELSE e
@@ -1229,6 +1622,10 @@ Build(cd, s) ==
     [] cd.fam = "priv_inthis"  -> PIn(This)
     [] cd.fam = "priv_call"    -> PCall(This, <<s[1]>>)
     [] cd.fam = "priv_acc"     -> PAcc(This)
+    [] cd.fam = "priv_inc"     -> N("pinc", "", 0, <<This>>)
+    [] cd.fam = "priv_destr"   -> N("pdestr", "", 0, <<This, s[1]>>)
+    [] cd.fam \in {"dfn", "cpy", "thn"} -> N(cd.fam, cd.op, 0, s)
+    [] cd.fam = "tim"          -> N("tim", cd.op, FormIdx(cd.key), s)
     [] cd.fam = "rest"         -> N("rest", cd.op, 0, [j \in DOMAIN s |-> IF j = 2 /\ cd.op = "r_asg" THEN ParIfChain(s[j]) ELSE s[j]])
     [] cd.fam = "using"        -> N("using", cd.op, 0, s)
     [] cd.fam = "async"        -> N("async", cd.op, 0, s)
@@ -1265,7 +1662,9 @@ HasKind(x, ks) == x.k \in ks \/ \E i \in DOMAIN x.a : HasKind(x.a[i], ks)
 HasCtx(x, names) == (x.k = "ctx" /\ x.s \in names) \/ \E i \in DOMAIN x.a : HasCtx(x.a[i], names)
 RECURSIVE HasUsingAwait(_)
 HasUsingAwait(x) == (x.k = "using" /\ x.s \in {"u_await", "u_mixed"}) \/ \E i \in DOMAIN x.a : HasUsingAwait(x.a[i])
-NeedsAsync(x) == HasCtx(x, AsyncCtx) \/ HasKind(x, {"async"}) \/ HasUsingAwait(x)
+RECURSIVE HasAwaitDfn(_)
+HasAwaitDfn(x) == (x.k = "dfn" /\ x.s \in {"d_superget", "d_superset"}) \/ \E i \in DOMAIN x.a : HasAwaitDfn(x.a[i])
+NeedsAsync(x) == HasCtx(x, AsyncCtx) \/ HasKind(x, {"async", "tim", "thn"}) \/ HasUsingAwait(x) \/ HasAwaitDfn(x)
 ProbesOf(x) == (IF x.k = "p" THEN {<<x.n, x.s>>} ELSE {}) \cup UNION {ProbesOf(x.a[i]) : i \in DOMAIN x.a}
 
 \* positions in which an expression containing await cannot stand (a non-async function or a
@@ -1273,6 +1672,8 @@ ProbesOf(x) == (IF x.k = "p" THEN {<<x.n, x.s>>} ELSE {}) \cup UNION {ProbesOf(x
 NoAwaitPos == {"arrow", "gen", "meth", "field", "sfield", "sblock", "dflt", "ddflt", "forinit", "forof", "while", "catch",
                "privU", "privT", "sprivT", "privT_arrow", "privT_field", "varU", "varT", "varZ", "varT_arrow"}
 NoArgPos == {"field", "sfield", "sblock", "meth", "privU", "privT", "sprivT", "privT_arrow", "privT_aarrow", "privT_field"}
+ObjFams == {"dfn", "cpy", "tim", "thn"}
+ObjFamPositions == {"ret", "arrow", "aarrow", "afn", "agen", "gen", "meth", "field", "sfield", "sblock", "dflt", "objval", "arg", "catch", "forof"}
 PosOK(cd, e, pos) ==
   /\ (cd.req = "priv") <=> (pos \in SeqSet(PrivPositions))
   /\ (cd.req = "var") <=> (pos \in SeqSet(VarPositions))
@@ -1280,6 +1681,8 @@ PosOK(cd, e, pos) ==
   /\ NeedsAsync(e) => pos \notin NoAwaitPos
   \* an assignment target / callee / receiver position only makes sense for expression constructs
   /\ cd.fam \in {"rest", "using", "async", "class"} => pos \notin {"asgtgt", "callee", "recv", "taghole"}
+  \* the object-model families are self-contained statements: a covering set of positions
+  /\ cd.fam \in ObjFams => pos \in ObjFamPositions
 
 Prog(name, x) == [name |-> name, x |-> x]
 AllPositions == ExprPositions \o PrivPositions \o VarPositions
@@ -1287,6 +1690,14 @@ AllPositions == ExprPositions \o PrivPositions \o VarPositions
 SingleProgs(cds, idx) ==
   {Prog(pos \o "/" \o cds[i].name, Wrap(pos, Build(cds[i], DefaultSlots(cds[i], 0)))) :
      <<i, pos>> \in {<<j, q>> \in idx \X SeqSet(AllPositions) : PosOK(cds[j], Build(cds[j], DefaultSlots(cds[j], 0)), q)}}
+
+\* label-first covering sample of the single programs: every construct keeps every stride-th
+\* position (rotated by the construct index and the offset), so that every construct label and
+\* every position label stays in the sample; stride 1 = everything
+SingleProgsS(cds, idx, stride, offset) ==
+  UNION {LET e  == Build(cds[j], DefaultSlots(cds[j], 0))
+             ok == SelectSeq(AllPositions, LAMBDA q : PosOK(cds[j], e, q))
+         IN {Prog(ok[m] \o "/" \o cds[j].name, Wrap(ok[m], e)) : m \in {m2 \in DOMAIN ok : (m2 + j + offset) % stride = 0}} : j \in idx}
 
 \* pairs: one operand slot of the outer construct holds the inner construct (probes 11..)
 Nestable(cd) == cd.req = "" /\ cd.fam \notin {"class"}
@@ -1302,7 +1713,7 @@ PairProgs(outer, inner, idx, stride, offset) ==
      <<i, j, m, q>> \in {<<i2, j2, m2, q2>> \in idx \X (1..3) \X (DOMAIN inner) \X (DOMAIN pp) :
          /\ (i2 * 7 + j2 * 3 + m2 * 5 + q2 + offset) % stride = 0
          /\ j2 \in NestSlots(outer[i2]) /\ Nestable(inner[m2])
-         /\ outer[i2].req = ""
+         /\ outer[i2].req = "" /\ outer[i2].fam \notin ObjFams
          \* an operand that awaits cannot stand inside the synchronous function / class body of a template
          /\ NeedsAsync(Build(inner[m2], DefaultSlots(inner[m2], 10))) =>
               \* (nor inside an async template: its rules take the operand as one synchronous step)
@@ -1318,6 +1729,8 @@ RoleSetSmall(role) ==
   CASE role = "r"  -> {"U", "O"} [] role = "v"  -> {"U", "T"} [] role = "n"  -> {"T", "W"} [] role = "k"  -> {"S"}
     [] role = "ka" -> {"Sa"} [] role = "g"  -> {"G", "U"} [] role = "gs" -> {"G", "T"} [] role = "gt" -> {"G"}
     [] role = "f"  -> {"F"} [] role = "i"  -> {"O", "U"} [] role = "d"  -> {"D", "DX"} [] role = "da" -> {"AD", "D"}
+    [] role = "bs" -> {"B0", "BA"} [] role = "vd" -> {"T"} [] role = "kd" -> {"Sx"} [] role = "sg" -> {"G", "OP"}
+    [] role = "sr" -> {"G", "OP"} [] role = "ds" -> {"N", "G"} [] role = "th" -> {"TH", "T"}
     [] OTHER -> RoleSet(role)
 RECURSIVE EnvsOver(_, _)
 EnvsOver(ps, small) ==   \* ps: set of <<id, role>>
